@@ -24,9 +24,9 @@ func init() {
 		},
 		NumCases: func(tier string) int {
 			if tier == "thorough" {
-				return 400000
+				return 3000000
 			}
-			return 30000
+			return 60000
 		},
 		Run: c16Run,
 		Floors: func(m *Merged, tier string) []string {
